@@ -6,7 +6,7 @@ use std::sync::atomic::{AtomicU64, Ordering};
 use rayon::prelude::*;
 use serde_json::json;
 
-use crate::report::{cov, Report, Tier};
+use crate::report::{cov, Report, Scratch, Tier};
 use crate::sut::{self, DeviceRow, Outcome};
 
 fn repo_root() -> std::path::PathBuf {
@@ -293,6 +293,83 @@ pub fn run(tier: Tier) -> i32 {
         }
     }
 
+    // 3b. device selection across file boundaries: the first .device in an included file, the
+    //     second in the includer, in a sibling include or again in a nested one; and the limits
+    //     of a device selected inside an include are the ones enforced
+    {
+        let scratch = Scratch::new("c12");
+        let dir = scratch.path.clone();
+        for d in devs.iter() {
+            let _ = std::fs::write(dir.join(format!("dev_{}.inc", d.name)), format!("; part selection\n.device {}\n", d.name));
+            let _ = std::fs::write(dir.join(format!("nest_{}.inc", d.name)), format!(".include \"dev_{}.inc\"\nnop\n", d.name));
+        }
+        let others = ["ATmega88", "ATtiny13", "ATmega2560"];
+        let cases: Vec<(String, String, String, bool)> = devs
+            .iter()
+            .flat_map(|d| {
+                let other = others.iter().find(|o| **o != d.name).unwrap();
+                let mut v = vec![
+                    ("second-device-after-include".to_string(), d.name.clone(), format!(".include \"dev_{}.inc\"\n.device {}\nnop\n", d.name, other), false),
+                    ("second-device-after-include".to_string(), d.name.clone(), format!(".include \"dev_{}.inc\"\nnop\n.device {}\n", d.name, d.name), false),
+                    ("second-device-in-sibling-include".to_string(), d.name.clone(), format!(".include \"dev_{}.inc\"\n.include \"dev_{}.inc\"\n", d.name, other), false),
+                    ("second-device-after-nested-include".to_string(), d.name.clone(), format!(".include \"nest_{}.inc\"\n.device {}\n", d.name, other), false),
+                    ("include-after-device".to_string(), d.name.clone(), format!(".device {}\n.include \"dev_{}.inc\"\n", other, d.name), false),
+                    ("device-from-include-alone".to_string(), d.name.clone(), format!(".include \"nest_{}.inc\"\n.dseg\nram_probe:\n", d.name), true),
+                ];
+                if d.ram_size > 0 {
+                    v.push(("ram-limit-of-included-device".to_string(), d.name.clone(), format!(".include \"dev_{}.inc\"\n.dseg\n.byte {}\n", d.name, d.ram_size + 1), false));
+                    v.push(("ram-limit-of-included-device".to_string(), d.name.clone(), format!(".include \"dev_{}.inc\"\n.dseg\n.byte {}\n", d.name, d.ram_size), true));
+                }
+                v
+            })
+            .collect();
+        cases.par_iter().enumerate().for_each(|(i, (kind, dev, text, must_ok))| {
+            let main = dir.join(format!("main_{}.asm", i));
+            let _ = std::fs::write(&main, text);
+            let o = sut::build_file(main.clone(), Default::default());
+            evals.fetch_add(1, Ordering::Relaxed);
+            let row = devs.iter().find(|d| &d.name == dev).unwrap();
+            let bad = match (&o, *must_ok) {
+                (Outcome::Ok(b), true) => {
+                    n_ok.fetch_add(1, Ordering::Relaxed);
+                    if b.flash_size != row.flash_words || b.eeprom_size != row.eeprom_size || b.ram_size != row.ram_size {
+                        Some(format!("a device selected inside an included file is not the one reported: {}/{}/{}", b.flash_size, b.eeprom_size, b.ram_size))
+                    } else {
+                        None
+                    }
+                }
+                (Outcome::Ok(b), false) => {
+                    n_ok.fetch_add(1, Ordering::Relaxed);
+                    Some(format!("must fail but builds (reported sizes {}/{}/{})", b.flash_size, b.eeprom_size, b.ram_size))
+                }
+                (Outcome::Err(e), true) => {
+                    n_err.fetch_add(1, Ordering::Relaxed);
+                    Some(format!("must build but: {}", e))
+                }
+                (Outcome::Err(_), false) => {
+                    n_err.fetch_add(1, Ordering::Relaxed);
+                    None
+                }
+                (Outcome::Panic { site, msg }, _) => Some(format!("panic at {}: {}", site, msg)),
+            };
+            if let Some(what) = bad {
+                rep.violation(&format!("C12/{}/device={}", kind, dev), || format!("{} :: {}", text.replace('\n', " | "), what), || json!({"kind": "build_str", "source": text, "note": "main file of a build_file run; dev_<D>.inc holds `.device D`, nest_<D>.inc includes dev_<D>.inc", "observed": o.to_json()}));
+            }
+            let _ = std::fs::remove_file(&main);
+        });
+        // a shipped part file selects the device: a second .device must still fail
+        let shipped = repo_root().join("includes");
+        let main = dir.join("main_shipped.asm");
+        let _ = std::fs::write(&main, ".include \"m48def.inc\"\n.device ATmega88\n.dseg\n.byte 600\n");
+        let mut paths = std::collections::BTreeSet::new();
+        paths.insert(shipped);
+        let o = sut::build_file(main, paths);
+        evals.fetch_add(1, Ordering::Relaxed);
+        if o.is_ok() {
+            rep.violation("C12/second-device-after-shipped-part-file/device=ATmega48", || format!("`.include \"m48def.inc\"` then `.device ATmega88` must fail but: {}", o.to_json()), || json!({"kind": "build_str", "source": ".include \"m48def.inc\"\n.device ATmega88\n.dseg\n.byte 600\n", "observed": o.to_json()}));
+        }
+    }
+
     // 4. shipped part-definition files: the four declared figures = what the tool enforces/reports
     let parts = read_part_files();
     let mut part_checked = 0u64;
@@ -345,7 +422,7 @@ pub fn run(tier: Tier) -> i32 {
     let coverage = cov(json!({
         "evaluations": evals.load(Ordering::Relaxed),
         "distinct_nontrivial": configs.load(Ordering::Relaxed),
-        "rule": "every row of the device table and 'no device' x {flash, EEPROM, RAM} x {capacity-1, capacity, capacity+1} x every way of getting there (.org+item, blocks of data, two-word instruction ending at the limit, .byte n, several interleaved segments) with expectation Ok/Ok/Err and ram_filling = data extent; reported sizes and RAM start per row; unknown and second .device; every shipped includes/*def.inc x its four #pragma AVRPART MEMORY figures. distinct_nontrivial = distinct (device, memory, amount, way) limit programs",
+        "rule": "every row of the device table and 'no device' x {flash, EEPROM, RAM} x {capacity-1, capacity, capacity+1} x every way of getting there (.org+item, blocks of data, two-word instruction ending at the limit, .byte n, several interleaved segments) with expectation Ok/Ok/Err and ram_filling = data extent; reported sizes and RAM start per row; unknown and second .device (in the same file, after an include that selected one, in a sibling or nested include, after a shipped part file), limits of a device selected inside an include; every shipped includes/*def.inc x its four #pragma AVRPART MEMORY figures. distinct_nontrivial = distinct (device, memory, amount, way) limit programs",
         "exhaustive": true,
         "devices": devs.len(),
         "part_files_found": parts.len(),
